@@ -32,3 +32,5 @@ Lemma lazy_leading :
 Proof. repeat split; vm_compute; reflexivity. Qed.
 Lemma hybrid : hybrid_ok = true.
 Proof. vm_cast_no_check (eq_refl true). Qed.
+Lemma whfast_recalc : whfast_recalc_ok = true.
+Proof. vm_cast_no_check (eq_refl true). Qed.
